@@ -97,7 +97,7 @@ class AnnotationCollection(AbstractFeatureIntervalCollection):
 
         self.feature_collections = list(feature_collections) if feature_collections else []
         self.genes = list(genes) if genes else []
-        self.variant_collections = variant_collections if variant_collections else []
+        self.variant_collections = list(variant_collections) if variant_collections else []
         self.sequence_name = sequence_name
         self.sequence_guid = sequence_guid
         self.sequence_path = sequence_path
